@@ -38,10 +38,29 @@ RULE = ("seeded generator: one session id driven through udpSessionManager.feed 
         "resolve v4 / v6 / both / to nothing / with a lookup error into, next to and at the edges of the CIDR and IP rules (plus IP literals), "
         "CheckUDP/UDP called in 4 orders; the generator's own first-match evaluation is shipped with every address and the routing is compared "
         "with model/C08_Adapter.v in Coq. Third stream: sessions through the real udpSessionManager.feed with that pipeline as the outbound, "
-        "first destination mostly allowed, later ones allowed / refused by name / refused by resolved address.")
+        "first destination mostly allowed, later ones allowed / refused by name / refused by resolved address. REAL LEAF OUTBOUNDS: the same "
+        "sessions over pipelines whose leaves are the real direct (5 modes), SOCKS5 (with / without credentials, against a loopback proxy "
+        "that grants UDP ASSOCIATE), HTTP / HTTPS proxy and built-in reject outbounds and recording fakes, under user-chosen names incl. "
+        "entries called direct / reject / default of any kind and mixed-case references, the proxy often first (= default) with a few "
+        "destinations routed direct; a real leaf's own UDP() / CheckUDP() answer, the socket it hands out is closed at once and replaced by "
+        "a recording one (nothing leaves the process); the policy oracle of a destination is UDP() of a FRESH session on an untouched "
+        "instance; sessions open on a UDP-capable leaf and go on to destinations routed to leaves without UDP / rejecting ones; after the "
+        "session CheckUDP(d) of a third untouched instance must not allow any d whose UDP(d) is refused. Fourth stream, policies that FAIL: "
+        "sessions through the real udpSessionManager.feed whose udpIO is the server's own udpIOImpl (Hook / UDP / CheckUDP), Config.Outbound "
+        "and Config.RequestHook being fakes with three outcomes per destination - allowed, rejected, fails (panic with a string / an error / "
+        "nil, index out of range on a malformed address such as an empty port, nil-map write; unusual error values: typed-nil pointer, an "
+        "error whose Error() panics) - in CheckUDP only or in UDP too, hook absent / declining / rewriting / failing / panicking; directed "
+        "histories (allowed, rejected, failing, allowed, failing again, across a close, failing first) for every kind and random ones; a "
+        "propagating panic is recovered by the harness and counts as not forwarded; every session is replayed on model/C08_Fail.v in Coq.")
 ASSUMPTIONS = [
     "the outbound policy is a function of the destination string (CheckUDP(a)==nil iff UDP(a) would be allowed): Section variable P",
     "UDP(a) succeeds only for destinations the policy allows (the dial vets the first destination)",
+    "third layer (C08_fail_*): the outbound's CheckUDP never allows a destination its UDP refuses for a fresh session (forall a, Qc a = PAllow -> Qd a = PAllow): "
+    "proved for the ACL pipeline over the leaf table of extras/outbounds (C08_pipeline_check_implies_dial, C08_leaves_consistent; a SOCKS5 "
+    "proxy that does not grant UDP ASSOCIATE excepted) and checked on every run for each real leaf implementation by the pipeline-session harness; "
+    "needed: C08_inconsistent_check_refuted, C08_http_check_nil_refuted",
+    "third layer: the code between checkAddr and the outbound reports 'allowed' only when the outbound said so (wrapper_safe): proved for the "
+    "transcription of udpIOImpl.CheckUDP (C08_io_wrapper_passes_failure_on), tied to the code by the failing-policy sessions; needed: C08_recover_into_local_refuted",
     "a client datagram never carries the empty destination string (wf_input; ParseUDPMessage rejects a zero-length address): discharged from C05's model of ParseUDPMessage for sessions driven by raw datagram bytes (C08_parsed_address_nonempty, C08_raw_denied_never_written, C08_raw_check_is_write; coq/proof/C08_Raw.v; the glue - skip what does not parse, as udpIOImpl.ReceiveMessage does - is read from the code, the parser itself is tied by the C05 check incl. zero-length addresses)",
 ]
 TRUSTED = ["modelled rather than verified: udpSessionEntry.Feed/checkAddr/initConn and the reply address stamp of core/server/udp.go "
@@ -49,9 +68,13 @@ TRUSTED = ["modelled rather than verified: udpSessionEntry.Feed/checkAddr/initCo
            "coq/model/C08_Feed.v; its Defragger is proved to be the C05 model of frag.Defragger.Feed with the payload forgotten); the UDP entry points of PluggableOutboundAdapter / resolver stage / aclEngine "
            "(coq/model/C08_Adapter.v on top of the C09 engine model); the resolver stage is a static-table stand-in with the shape of "
            "systemResolver/standardResolver; the harness checks on generated rule sets that CheckUDP(addr)==nil iff UDP(addr) succeeds with "
-           "identical routing (outbound, rewritten address, resolve info) and that both equal the generator's first-match evaluation"]
+           "identical routing (outbound, rewritten address, resolve info) and that both equal the generator's first-match evaluation; "
+           "udpIOImpl.CheckUDP / UDP / Hook (core/server/server.go) as wrappers that pass the callee's answer and panic on, and the UDP side of the "
+           "leaf outbounds of extras/outbounds as a two-column table (coq/model/C08_Fail.v: io_result, leaf_udp, leaf_check), tied by the replay of "
+           "every failing-policy session and of every (leaf, UDP ok, CheckUDP ok) observation in corr/C08_Fail_Corr.v; direct outbounds bound to a "
+           "local address (UDP() refuses destinations without an address of the bound family, WriteTo fails for them alike) are not exercised"]
 PER_SHARD = 25
-EXTRA_TARGETS = ["corr/C08_Corr.vo", "corr/C08_Adapter_Corr.vo"]
+EXTRA_TARGETS = ["corr/C08_Corr.vo", "corr/C08_Adapter_Corr.vo", "corr/C08_Fail_Corr.vo"]
 POOL = 401
 
 
@@ -774,9 +797,8 @@ def acl_first_match(rules, obs, allow, name, v4, v6, port):
     """python reference of RuleSet.Match + aclEngine default for one UDP query. rules: (ob, kind, pat, pp).
     Returns True (allowed) / False (refused)."""
     import ipaddress
-    verdict = dict(zip(obs, allow))
-    verdict["reject"] = False
-    verdict["default"] = allow[0]
+    verdict = {"reject": False, "direct": True, "default": allow[0]}     # the built-ins ...
+    verdict.update({o.lower(): a for o, a in zip(obs, allow)})           # ... unless a user entry carries the name
     for ob, kind, pat, pp in rules:
         pr, sp, ep = _parse_pp(pp)
         if "udp" not in pr or not (sp <= port <= ep):
@@ -794,18 +816,61 @@ def acl_first_match(rules, obs, allow, name, v4, v6, port):
         else:  # suffix
             hit = name == pat or name.endswith("." + pat)
         if hit:
-            return verdict[ob]
-    return allow[0]   # no rule matched: the default outbound = the first in the list
+            return verdict[ob.lower()]
+    return verdict["default"]   # no rule matched: the default outbound = the first in the list (or the one named default)
 
 
-def gen_acl_resolve(rng, n):
+# ---- real leaf outbounds (extras/outbounds): what UDP() of a FRESH session answers for ANY destination
+LEAF_KINDS = ["direct:0", "direct:1", "direct:2", "direct:3", "direct:4", "socks5", "socks5auth", "http", "https"]
+LEAF_NAMES = ["proxy", "corp", "tor", "upstream", "exit", "ob0", "ob1", "Wan", "lan", "HttpProxy", "s5"]
+
+
+def leaf_udp_capable(kind):
+    return not kind.startswith("http")
+
+
+def gen_leaf_set(rng):
+    """outbound entries (name, kind) for the ACL engine: leaves of every kind under user-chosen names, some of which
+    do not carry UDP; always an entry called direct (the built-in one would send real packets), now and then entries
+    called reject / default of any kind. kind "" = the recording fake with an allow flag. The first entry is the default."""
+    nob = rng.randint(1, 4)
+    names = rng.sample(LEAF_NAMES, nob)
+    kinds = [rng.choice(LEAF_KINDS + ["", ""]) for _ in names]
+    if rng.random() < 0.75 and not any(k.startswith("http") for k in kinds):
+        kinds[rng.randrange(nob)] = rng.choice(["http", "https"])        # a leaf without UDP
+    names.append("direct")
+    kinds.append(rng.choice(LEAF_KINDS[:5]) if rng.random() < 0.85 else rng.choice(LEAF_KINDS[5:] + [""]))
+    if rng.random() < 0.12:
+        names.append("reject")
+        kinds.append(rng.choice(LEAF_KINDS + [""]))
+    if rng.random() < 0.12:
+        names.append("default")
+        kinds.append(rng.choice(LEAF_KINDS + [""]))
+    order = list(range(len(names)))
+    rng.shuffle(order)
+    if rng.random() < 0.45:
+        # the common deployment: the proxy is the first (= default) outbound, a few destinations go direct
+        px = [i for i in order if kinds[i].startswith("http")]
+        if px:
+            order.remove(px[0])
+            order.insert(0, px[0])
+    names = [names[i] for i in order]
+    kinds = [kinds[i] for i in order]
+    allow = [(rng.random() < 0.6) if k == "" else leaf_udp_capable(k) for k in kinds]
+    return names, allow, kinds
+
+
+def gen_acl_resolve(rng, n, leafy=False):
     import ipaddress
     cases = []
     for ci in range(n):
         nob = rng.randint(1, 3)
         obs = ["ob%d" % j for j in range(nob)]
         allow = [rng.random() < 0.7 for _ in obs]
-        if ci % 3 == 0:
+        kinds = None
+        if leafy:
+            obs, allow, kinds = gen_leaf_set(rng)
+        elif ci % 3 == 0:
             allow[0] = True      # the default outbound accepts: a rule that is skipped means "allowed"
         nets = rng.sample(R_NETS4, rng.randint(1, 2)) + rng.sample(R_NETS6, rng.randint(0, 2))
         names = rng.sample(R_NAMES, rng.randint(4, 7))
@@ -839,6 +904,10 @@ def gen_acl_resolve(rng, n):
         rules = []
         for _ in range(rng.randint(1, 6)):
             ob = rng.choice(obs + ["reject", "reject", "default"])
+            if leafy:
+                ob = rng.choice(obs + obs + ["reject", "default", "direct"])
+                if rng.random() < 0.2:
+                    ob = rng.choice([ob.upper(), ob.lower(), ob.capitalize()])      # outbound names are case-insensitive
             r = rng.random()
             if r < 0.45:
                 kind, pat = "cidr", rng.choice(nets)
@@ -885,6 +954,8 @@ def gen_acl_resolve(rng, n):
             order.append(rng.randrange(4))
         cases.append({"rules": "\n".join(lines), "obs": obs, "allow": allow, "addrs": addrs, "resolve": table,
                       "expect": expect, "order": order, "rf": rf, "qhosts": qhosts})
+        if kinds is not None:
+            cases[-1]["kinds"] = kinds
     return cases
 
 
@@ -893,13 +964,13 @@ def gen_acl_resolve(rng, n):
 # later ones mix allowed / refused-by-name / refused-by-resolved-address destinations
 GO_CHAIN = dict(module="core", pkg="server", pkgname="server",
                 files={"zz_verif_udpenv_test.go": "c07/udpenv_test.go", "zz_verif_c08chain_test.go": "c08/c08chain_test.go",
-                       "zz_verif_c08chainx_test.go": "c08/c08chainx_test.go"},
+                       "zz_verif_c08chainx_test.go": "c08/c08chainx_test.go", "zz_verif_c08impl_test.go": "c08/c08impl_test.go"},
                 run="TestVerifC08Chain")
 
 
-def gen_chain(rng, n):
+def gen_chain(rng, n, leafy=False):
     cases = []
-    for c in gen_acl_resolve(rng, n):
+    for c in gen_acl_resolve(rng, n, leafy=leafy):
         dsts, expect = [], []
         for a, e in zip(c["addrs"], c["expect"]):
             if a not in dsts:
@@ -920,12 +991,125 @@ def gen_chain(rng, n):
             fresh = False
         cases.append({"spec": {"rules": c["rules"], "obs": c["obs"], "allow": c["allow"], "resolve": c["resolve"]},
                       "dsts": dsts, "expect": expect, "ops": ops})
+        if "kinds" in c:
+            cases[-1]["spec"]["kinds"] = c["kinds"]
+            cases[-1]["leaves"] = True
+    return cases
+
+
+# ---- fourth stream: the policy FAILS.  Sessions through the real udpSessionManager.feed whose udpIO is the server's own
+# udpIOImpl (Hook / UDP / CheckUDP), Config.Outbound / Config.RequestHook being fakes with THREE outcomes per destination:
+# allowed (1), rejected (0), fails (2..5, 8, 9: panics of several kinds; 6, 7: unusual error values, which are rejections)
+IMPL_POOL = 48
+IMPL_FAIL_KINDS = [2, 3, 4, 5, 8, 9]
+IMPL_ODD_ERRORS = [6, 7]
+IMPL_BAD_NAMES = ["192.0.2.9:", "h7.example.net", "[::1", ":53", "example.org:99999", "198.51.100.7:http", "a b:53", "[fe80::1%eth0]:"]
+
+
+def impl_outcome3(k):
+    """Coq's three outcomes: 0 rejected, 1 allowed, 2 fails (a panic propagates)"""
+    return k if k in (0, 1) else 0 if k in IMPL_ODD_ERRORS else 2
+
+
+def gen_impl_session(rng):
+    pool = IMPL_POOL
+    dens = rng.choice([0.3, 0.5, 0.5, 0.7])
+    pf = rng.choice([0.1, 0.2, 0.3, 0.5])
+    out = [0] * pool
+    for a in range(1, pool):
+        x = rng.random()
+        if x < dens:
+            out[a] = 1
+        elif x < dens + (1 - dens) * pf:
+            out[a] = rng.choice(IMPL_FAIL_KINDS + IMPL_FAIL_KINDS + IMPL_ODD_ERRORS)
+    okl = [a for a in range(1, pool) if out[a] == 1] or [1]
+    if out[okl[0]] != 1:
+        out[okl[0]] = 1
+    bad = [a for a in range(1, pool) if out[a] >= 2]
+    if not bad:
+        bad = [rng.choice([a for a in range(1, pool) if a not in okl] or [2])]
+        out[bad[0]] = rng.choice(IMPL_FAIL_KINDS)
+    den = [a for a in range(1, pool) if out[a] == 0] or bad
+    names = {}
+    for nm, a in zip(rng.sample(IMPL_BAD_NAMES, rng.randint(0, 4)), rng.sample(bad, min(4, len(bad)))):
+        names[str(a)] = nm            # the destinations the policy chokes on are mostly ordinary, some are malformed
+    hm = rng.random()
+    if hm < 0.5:
+        hook = [0]
+    elif hm < 0.62:
+        hook = [4]
+    elif hm < 0.72:
+        hook = [1, rng.choice(okl + bad[:1])]
+    elif hm < 0.84:
+        hook = [2, rng.choice([2, 3, 5]), rng.choice(okl + bad[:1])]
+    elif hm < 0.88:
+        hook = [3]
+    elif hm < 0.94:
+        hook = [5, rng.choice([2, 3, 7])]
+    else:
+        hook = [6, rng.choice([2, 3, 7])]
+    work = rng.sample(range(1, pool), rng.choice([4, 8, 16]))
+    ops = []
+    fresh = True
+    for _ in range(rng.randint(4, 45)):
+        x = rng.random()
+        if not fresh and x < 0.05:
+            ops.append([2])
+            fresh = True
+            continue
+        if fresh and rng.random() < 0.8:
+            a = rng.choice(okl)
+        elif x < 0.40:
+            a = rng.choice(bad)
+        elif x < 0.55:
+            a = rng.choice(den)
+        elif x < 0.8:
+            a = rng.choice(okl)
+        else:
+            a = rng.choice(work)
+        ops.append([0, a])
+        if rng.random() < 0.25:
+            ops.append([0, a])          # again at once: the second time the answer would come from the cache
+        fresh = False
+    return {"impl": True, "pool": pool, "out": out, "dmode": rng.choice([0, 0, 1]), "hook": hook, "names": names, "ops": ops}
+
+
+def gen_impl_directed(rng):
+    """the session comes up on an allowed destination; then, for every way of failing: rejected, failing, allowed, failing
+    again (cache), across a close, as the first destination of the next session; without / with a RequestHook"""
+    cases = []
+    for k in IMPL_FAIL_KINDS + IMPL_ODD_ERRORS:
+        A, B, D, F = rng.sample(range(1, IMPL_POOL), 4)
+        out = [0] * IMPL_POOL
+        out[A] = out[B] = 1
+        out[F] = k
+        names = {str(F): rng.choice(IMPL_BAD_NAMES)} if rng.random() < 0.6 else {}
+        for hook in ([0], [4]):
+            for dmode in (0, 1):
+                ops = [[0, A], [0, D], [0, F], [0, A], [0, F], [0, B], [0, F], [2], [0, B], [0, F], [0, F], [0, D], [2], [0, F], [0, A], [0, F]]
+                cases.append({"impl": True, "pool": IMPL_POOL, "out": out, "dmode": dmode, "hook": hook, "names": names, "ops": ops})
+        # hooked: the session's one destination is the rewritten one, whatever the datagrams name
+        cases.append({"impl": True, "pool": IMPL_POOL, "out": out, "dmode": 0, "hook": [1, B], "names": names,
+                      "ops": [[0, A], [0, F], [0, D], [2], [0, F], [0, A]]})
+        cases.append({"impl": True, "pool": IMPL_POOL, "out": out, "dmode": 1, "hook": [1, F], "names": names,
+                      "ops": [[0, A], [0, F], [0, B]]})
+    return cases
+
+
+def gen_impl(rng, tier):
+    cases = gen_impl_directed(rng)
+    for _ in range(50 if tier == "quick" else 1200):
+        cases.append(gen_impl_session(rng))
     return cases
 
 
 def run_chain_stream(ctx):
     import random
     cases = gen_chain(random.Random(ctx.seed + 888), 60 if ctx.tier == "quick" else 900)
+    # real leaf outbounds of every kind behind the ACL engine (same Go test binary)
+    cases += gen_chain(random.Random(ctx.seed + 8888), 45 if ctx.tier == "quick" else 700, leafy=True)
+    # policies that fail, through the real udpIOImpl (same Go test binary)
+    cases += gen_impl(random.Random(ctx.seed + 88888), ctx.tier)
     ok, outs, _, log = common.run_go_cases(ctx, GO_CHAIN, cases, tag="chain")
     viol = []
     if not ok:
@@ -934,20 +1118,138 @@ def run_chain_stream(ctx):
                      "replay": {"broken": "go harness (pipeline sessions)", "log": log[-3000:]}, "found_input": False, "fingerprint": None})
     seen_why = set()
     fwd = drop = 0
+    lf = {"sessions": 0, "forwarded": 0, "not_forwarded": 0, "refused_by_leaf_without_udp": 0}
+    im = {"sessions": 0, "forwarded": 0, "not_forwarded": 0, "policy_failed_in_check": 0, "policy_failed_in_dial": 0}
     for c, o in zip(cases, outs):
-        for st in o.get("steps") or []:
-            if st:
-                fwd += st[0]
-                drop += 1 - min(st[0], 1)
+        if c.get("impl"):
+            im["sessions"] += 1
+            for st in o.get("steps") or []:
+                if st:
+                    im["forwarded" if st[0] % 4 == 0 else "not_forwarded"] += 1
+                    if st[0] % 4 == 3:
+                        im["policy_failed_in_dial" if st[0] & 64 else "policy_failed_in_check"] += 1
+        else:
+            tgt = lf if c.get("leaves") else None
+            if tgt is not None:
+                tgt["sessions"] += 1
+                kinds = dict(zip([x.lower() for x in c["spec"]["obs"]], c["spec"]["kinds"]))
+            for op, st in zip(c["ops"], o.get("steps") or []):
+                if st:
+                    fwd += st[0]
+                    drop += 1 - min(st[0], 1)
+                    if tgt is not None:
+                        tgt["forwarded"] += st[0]
+                        tgt["not_forwarded"] += 1 - min(st[0], 1)
+            if tgt is not None:
+                tgt["refused_by_leaf_without_udp"] += sum(1 for a, ca in zip(o.get("allowed") or [], o.get("check_allows") or []) if not a and not ca)
         if o.get("ok") is False:
-            k = re.sub(r"\d+", "N", re.sub(r'"[^"]*"', "Q", str(o.get("why")))).split(":")[0]
+            k = re.sub(r"\d+", "N", re.sub(r"\([^)]*\)", "", re.sub(r'"[^"]*"', "Q", str(o.get("why"))))).split(":")[0]
             if k in seen_why:
                 continue
             seen_why.add(k)
-            viol.append({"what": "pipeline session: %s" % o.get("why"), "replay": {"chain_case": c, "impl": o}, "fingerprint": None,
+            label = "failing-policy session (real udpIOImpl)" if c.get("impl") else "pipeline session (real leaf outbounds)" if c.get("leaves") else "pipeline session"
+            viol.append({"what": "%s: %s" % (label, o.get("why")), "replay": {"chain_case": c, "impl": o}, "fingerprint": None,
                          "found_input": True})
-    ctx.say("pipeline sessions: %d sessions through udpSessionManager.feed, datagrams forwarded=%d not forwarded=%d" % (len(cases), fwd, drop))
-    return viol, {"evaluations": len(cases), "datagrams_forwarded": fwd, "datagrams_not_forwarded": drop}
+    nchain = sum(1 for c in cases if not c.get("impl"))
+    ctx.say("pipeline sessions: %d sessions through udpSessionManager.feed, datagrams forwarded=%d not forwarded=%d "
+            "(of these %d over real leaf outbounds: forwarded=%d not forwarded=%d); failing-policy sessions through the real "
+            "udpIOImpl: %d, forwarded=%d not forwarded=%d, policy failed in CheckUDP=%d in the dial=%d"
+            % (nchain, fwd, drop, lf["sessions"], lf["forwarded"], lf["not_forwarded"],
+               im["sessions"], im["forwarded"], im["not_forwarded"], im["policy_failed_in_check"], im["policy_failed_in_dial"]))
+    FAIL_STATE["leaf_obs"] = set()
+    for c, o in zip(cases, outs):
+        if c.get("leaves"):
+            FAIL_STATE["leaf_obs"] |= leaf_observations(c, o)
+    FAIL_STATE["cases"] = [c for c in cases if c.get("impl")]
+    FAIL_STATE["outs"] = [o for c, o in zip(cases, outs) if c.get("impl")]
+    return viol, {"evaluations": nchain, "datagrams_forwarded": fwd, "datagrams_not_forwarded": drop,
+                  "real_leaf_outbounds": lf, "failing_policy_sessions": im}
+
+
+FAIL_STATE = {"cases": [], "outs": [], "leaf_obs": set()}
+
+HEADER_FAIL = ("From Hy Require Import lib.Harness model.C08_UDPPolicy model.C08_Fail corr.C08_Fail_Corr.\n"
+               "From Coq Require Import NArith.\nLocal Open Scope N_scope.\n")
+
+
+def fail_to_coq(c, o):
+    """a failing-policy session as a CFail term (None: the harness produced nothing comparable)"""
+    if o.get("panic") or "steps" not in o:
+        return None
+    h = c["hook"]
+    hm = ("H3Off" if h[0] in (0, 4) else "(H3Const %d)" % h[1] if h[0] == 1 else "(H3Mod %d %d)" % (h[1], h[2]) if h[0] == 2
+          else "H3Err" if h[0] == 3 else "(H3PanicMod %d)" % h[1])
+    st = []
+    for op, s_ in zip(c["ops"], o["steps"]):
+        if op[0] == 0:
+            st.append("FS %d %d %d %d" % (op[1], s_[0], s_[1], s_[2]))
+        else:
+            st.append("FC")
+    return "CFail %s %s %s [%s]" % (nl([impl_outcome3(k) for k in c["out"]]), "true" if c["dmode"] else "false", hm, ";".join(st))
+
+
+def leaf_of_kind(kind, allow):
+    if kind.startswith("direct:"):
+        return "LDirect"
+    if kind.startswith("socks5"):
+        return "(LSocks5 true)"
+    if kind.startswith("http"):
+        return "LHttp"
+    return "(LFake %s)" % ("true" if allow else "false")
+
+
+def leaf_observations(c, o):
+    """(leaf, UDP() succeeded, CheckUDP() == nil) for every destination of a pipeline session over real leaves, by the
+    outbound its CheckUDP was routed to; a destination that reached no recording outbound was answered by the built-in
+    reject (the built-in direct is always overridden by an entry of that name)"""
+    res = set()
+    sp = c["spec"]
+    kinds = {n.lower(): (k, a) for n, k, a in zip(sp["obs"], sp["kinds"], sp["allow"])}
+    if "default" not in kinds:
+        kinds["default"] = (sp["kinds"][0], sp["allow"][0])
+    for rt, a, ca in zip(o.get("check_routes") or [], o.get("allowed") or [], o.get("check_allows") or []):
+        if rt == "":
+            if "reject" not in kinds:
+                res.add(("LReject", bool(a), bool(ca)))
+            continue
+        k = kinds.get(rt.lower())
+        if k is not None:
+            res.add((leaf_of_kind(*k), bool(a), bool(ca)))
+    return res
+
+
+def eval_fail(ctx, impl_bad):
+    """after the proof stage built corr/C08_Fail_Corr.vo: the failing-policy sessions and the leaf table against the model"""
+    import time
+    t1 = time.time()
+    terms, idx = [], []
+    for i, (c, o) in enumerate(zip(FAIL_STATE["cases"], FAIL_STATE["outs"])):
+        t = fail_to_coq(c, o)
+        if t is not None:
+            terms.append(t)
+            idx.append(i)
+    nsess = len(terms)
+    leafs = sorted(FAIL_STATE["leaf_obs"])
+    for lf, u, ck in leafs:
+        terms.append("CLeaf %s %s %s" % (lf, "true" if u else "false", "true" if ck else "false"))
+    eok, mm, err = common.eval_cases(ctx, "fail", HEADER_FAIL, terms, 30)
+    ctx.say("coq evaluation of %d failing-policy sessions and %d leaf-outbound observations (third layer): %.1fs, disagreements=%d"
+            % (nsess, len(leafs), time.time() - t1, len(mm)))
+    viol = []
+    if not eok:
+        viol.append({"what": "no longer shown to hold: third-layer correspondence evaluation (%s)" % err[:300],
+                     "replay": {"broken": "corr.C08_Fail_Corr evaluation", "err": err[-2000:]}, "fingerprint": None, "found_input": False})
+    elif mm and not impl_bad:
+        dis = []
+        for j in mm[:5]:
+            if j < nsess:
+                dis.append({"chain_case": FAIL_STATE["cases"][idx[j]], "impl": FAIL_STATE["outs"][idx[j]]})
+            else:
+                dis.append({"leaf_observation": list(leafs[j - nsess])})
+        viol.append({"what": "no longer shown to hold: correspondence C08_Fail_Corr on %d case(s)" % len(mm),
+                     "replay": {"broken": "corr.C08_Fail_Corr", "disagreeing_cases": dis}, "fingerprint": None, "found_input": False})
+    return viol, {"failing_policy_sessions_validated_against_model": nsess, "leaf_observations_validated_against_model": len(leafs),
+                  "model_impl_disagreements": len(mm)}
 
 
 HEADER_PIPE = ("From Hy Require Import lib.Harness model.C09_ACL corr.C08_Adapter_Corr.\nFrom Coq Require Import ZArith.\n"
@@ -1080,8 +1382,10 @@ def run(ctx):
         pv, pcov = eval_pipe(ctx_, pipe_state, any(v.get("found_input") for v in list(violations) + extra))
         acl_cov.update(pcov)
         cov["acl_adapter_stream"] = acl_cov
+        fv, fcov = eval_fail(ctx_, any(v.get("found_input") for v in list(violations) + extra))
+        chain_cov.update(fcov)
         cov["pipeline_session_stream"] = chain_cov
-        return orig(ctx_, pinfo, cov, list(violations) + extra + pv, assumptions, **kw)
+        return orig(ctx_, pinfo, cov, list(violations) + extra + pv + fv, assumptions, **kw)
     common.finish = fin
     try:
         return common.run_case_check(ctx, sys.modules[__name__])
@@ -1121,11 +1425,18 @@ LEVEL_TEXT = ("Machine-checked Coq theorems over a statement-by-statement Gallin
               "WriteTo and is the address of the message the Defragger returns (the last arrived fragment, by composition with the C05 "
               "model); a failed WriteTo is only reported (one attempt, same state); an overridden session only ever writes to the rewritten "
               "destination; the first layer is the restriction to complete messages. "
+              "Third layer (policies that fail; dial-time and per-datagram policy as two three-valued functions; the wrapper "
+              "udpIOImpl.CheckUDP explicit): only 'allowed' answers enter the decision cache as allowed, a destination on which the policy did "
+              "not say 'allowed' is never written to - not by the Feed in which it failed, not later from the cache -, an aborted Feed leaves "
+              "the entry as it was, for every wrapper that reports 'allowed' only when the outbound did and every outbound whose CheckUDP never "
+              "allows what its UDP refuses; that hypothesis is proved for resolver -> aclEngine -> {direct, SOCKS5, HTTP proxy, reject} under "
+              "any rule set, both hypotheses are shown to be needed by refutations (recover into a local with an unnamed result; an HTTP leaf "
+              "whose CheckUDP says nil); the first layer is the restriction to one two-valued policy. "
               "Tied to /repo on every run by the regenerated cap and a differential replay of ~250 recorded sessions "
               "(with Go's actual eviction choices) against the model in the kernel.")
 LEVEL_NOTE = ("Trusted: Coq kernel + vm_compute; hand-written model (tie is sampled differential testing + regenerated Params); python/Go glue. "
               "No axioms. Not proved: policies that are not functions of the destination string (a real resolver may answer differently from one "
-              "lookup to the next); that a terminal outbound's UDP() refuses what its CheckUDP() refuses. For the ACL pipeline "
+              "lookup to the next); for outbounds other than the extras/outbounds leaves, that UDP() refuses what CheckUDP() refuses is a hypothesis (checked per run for the real leaves). For the ACL pipeline "
               "C08_adapter_check_walks_same_acl / C08_adapter_same_policy state that CheckUDP and UDP evaluate the same handle on the same AddrEx "
               "(resolve info included), tied to the code by the adapter correspondence stream.")
 TECHNIQUE = "Coq proof (invariant over session histories, all eviction oracles) on a hand-written model + differential correspondence check in vm_compute"
